@@ -54,4 +54,19 @@ def windowsAux (width mlw : Nat) : Nat → Nat → Nat → List (Nat × Nat)
 /-- Windows `(start, end)` as slice bounds (the last one is clipped by slicing). -/
 def windows (width mlw : Nat) : List (Nat × Nat) := windowsAux width mlw width 0 mlw
 
+/-! ### Regrouping the window results per line (`process_lines`, transformer mode)
+
+    start = 0
+    for span in batch_image_spans:
+        merged = merge_transcriptions_and_logits(out_transcriptions[start:start+span], out_logits[start:start+span])
+        start += span
+-/
+def regroup {γ : Type} : List Nat → List γ → List (List γ)
+  | [], _ => []
+  | s :: r, xs => xs.take s :: regroup r (xs.drop s)
+
+/-- the per-line results of one batch: every line's own windows, stitched -/
+def batchResults (spans : List Nat) (parts : List (List α × List β)) : List (Option (List α × List β)) :=
+  (regroup spans parts).map mergeAll
+
 end Merge
